@@ -18,6 +18,8 @@ import (
 type T struct {
 	K    byte // n t f I F S [ {
 	I    int64
+	W    string // Go type of an integer leaf: "" (int64) or int int8 int16 int32 int64 uint uint8 uint16 uint32 uint64
+	U    uint64 // value of an unsigned leaf (W starts with 'u')
 	F    float64
 	S    string
 	E    []*T
@@ -29,6 +31,89 @@ func tNull() *T           { return &T{K: 'n'} }
 func tBool(b bool) *T     { if b { return &T{K: 't'} }; return &T{K: 'f'} }
 func tInt(i int64) *T     { return &T{K: 'I', I: i} }
 func tFlt(f float64) *T   { return &T{K: 'F', F: f} }
+
+// tIntW is an integer leaf of the Go type w holding v (signed types) or u (unsigned types),
+// truncated to the width of the type.
+func tIntW(w string, v int64, u uint64) *T {
+	t := &T{K: 'I', W: w}
+	switch w {
+	case "int8":
+		t.I = int64(int8(v))
+	case "int16":
+		t.I = int64(int16(v))
+	case "int32":
+		t.I = int64(int32(v))
+	case "int", "int64":
+		t.I = v
+	case "uint8":
+		t.U = uint64(uint8(u))
+	case "uint16":
+		t.U = uint64(uint16(u))
+	case "uint32":
+		t.U = uint64(uint32(u))
+	case "uint", "uint64":
+		t.U = u
+	default:
+		t.W, t.I = "", v
+	}
+	return t
+}
+
+func (t *T) unsigned() bool { return len(t.W) > 0 && t.W[0] == 'u' }
+
+// dec is the decimal text of the exact value of an integer leaf.
+func (t *T) dec() string {
+	if t.unsigned() {
+		return strconv.FormatUint(t.U, 10)
+	}
+	return strconv.FormatInt(t.I, 10)
+}
+
+// goVal is the integer leaf as a value of its Go type.
+func (t *T) goVal() any {
+	switch t.W {
+	case "int":
+		return int(t.I)
+	case "int8":
+		return int8(t.I)
+	case "int16":
+		return int16(t.I)
+	case "int32":
+		return int32(t.I)
+	case "uint":
+		return uint(t.U)
+	case "uint8":
+		return uint8(t.U)
+	case "uint16":
+		return uint16(t.U)
+	case "uint32":
+		return uint32(t.U)
+	case "uint64":
+		return t.U
+	}
+	return t.I
+}
+
+// bigUint reports whether some leaf holds an unsigned value of 2^63 or more (no gen.Int holds it).
+func (t *T) bigUint() bool {
+	switch t.K {
+	case 'I':
+		return t.unsigned() && t.U > math.MaxInt64
+	case '[':
+		for _, e := range t.E {
+			if e.bigUint() {
+				return true
+			}
+		}
+	case '{':
+		for _, v := range t.Vals {
+			if v.bigUint() {
+				return true
+			}
+		}
+	}
+	return false
+}
 func tStr(s string) *T    { return &T{K: 'S', S: s} }
 func tArr(e ...*T) *T     { return &T{K: '[', E: e} }
 func tObj(kv ...any) *T {
@@ -66,7 +151,7 @@ func (t *T) simple() any {
 	case 'f':
 		return false
 	case 'I':
-		return t.I
+		return t.goVal()
 	case 'F':
 		return t.F
 	case 'S':
@@ -96,6 +181,9 @@ func (t *T) genNode() gen.Node {
 	case 'f':
 		return gen.False
 	case 'I':
+		if t.unsigned() {
+			return gen.Int(int64(t.U)) // callers keep trees with bigUint() out of the gen flavour
+		}
 		return gen.Int(t.I)
 	case 'F':
 		return gen.Float(t.F)
@@ -133,7 +221,11 @@ func (t *T) canon(sb *strings.Builder, ord map[*T][]int) {
 	case 'n', 't', 'f':
 		sb.WriteByte(t.K)
 	case 'I':
-		fmt.Fprintf(sb, "I(%d)", t.I)
+		if t.W == "" {
+			fmt.Fprintf(sb, "I(%d)", t.I)
+		} else {
+			fmt.Fprintf(sb, "I(%s:%s)", t.dec(), t.W)
+		}
 	case 'F':
 		fmt.Fprintf(sb, "F(%s)", lib.HexF([]byte(floatText(t.F))))
 	case 'S':
@@ -187,6 +279,23 @@ func fromNode(n *lib.Node) (*T, error) {
 	case 'n', 't', 'f':
 		return &T{K: n.Kind}, nil
 	case 'I':
+		if k := strings.IndexByte(n.Text, ':'); k >= 0 {
+			w := n.Text[k+1:]
+			if strings.HasPrefix(w, "u") {
+				u, err := strconv.ParseUint(n.Text[:k], 10, 64)
+				t := tIntW(w, 0, u)
+				if err == nil && (t.W != w || t.U != u) {
+					err = fmt.Errorf("bad integer leaf %q", n.Text)
+				}
+				return t, err
+			}
+			i, err := strconv.ParseInt(n.Text[:k], 10, 64)
+			t := tIntW(w, i, 0)
+			if err == nil && (t.W != w || t.I != i) {
+				err = fmt.Errorf("bad integer leaf %q", n.Text)
+			}
+			return t, err
+		}
 		i, err := strconv.ParseInt(n.Text, 10, 64)
 		return tInt(i), err
 	case 'F':
@@ -275,7 +384,7 @@ func (t *T) equal(o *T) bool {
 	}
 	switch t.K {
 	case 'I':
-		return t.I == o.I
+		return t.W == o.W && t.dec() == o.dec()
 	case 'F':
 		return math.Float64bits(t.F) == math.Float64bits(o.F)
 	case 'S':
@@ -309,7 +418,7 @@ func (t *T) expectCanon(sb *strings.Builder) {
 	case 'n', 't', 'f':
 		sb.WriteByte(t.K)
 	case 'I':
-		fmt.Fprintf(sb, "N(%s)", lib.HexF([]byte(strconv.FormatInt(t.I, 10))))
+		fmt.Fprintf(sb, "N(%s)", lib.HexF([]byte(t.dec())))
 	case 'F':
 		fmt.Fprintf(sb, "N(%s)", lib.HexF([]byte(floatText(t.F))))
 	case 'S':
@@ -359,9 +468,9 @@ func denotes(exp *T, spec *lib.Node) (bool, string) {
 		}
 		lit, _ := lib.UnhexF(spec.Text)
 		ld, ok := lib.ParseDec(string(lit))
-		id, _ := lib.ParseDec(strconv.FormatInt(exp.I, 10))
+		id, _ := lib.ParseDec(exp.dec())
 		if !ok || !ld.Equal(id) {
-			return false, fmt.Sprintf("int-value: literal %q is not %d", lit, exp.I)
+			return false, fmt.Sprintf("int-value: literal %q is not %s", lit, exp.dec())
 		}
 	case 'F':
 		if spec.Kind != 'N' {
